@@ -1,6 +1,6 @@
 (* SimIsolationP.v — C13 (crux lemmas): matching one strategy's live orders touches no other order, and never the
    analytics (the traded volume every strategy starts from). *)
-From Coq Require Import ZArith List Bool Lia.
+From Coq Require Import ZArith List Bool Lia ZifyBool.
 From V Require Import Model.Num Model.Status Model.Sim Model.SimLoop.
 Open Scope Z_scope.
 
@@ -61,3 +61,372 @@ Proof.
   specialize (G (sort_orders live) (orders, map (fun a => (an_sel a, an_traded a)) ans) Hsorted Hin).
   fold step. destruct (fold_left step (sort_orders live) (orders, map (fun a => (an_sel a, an_traded a)) ans)) as [os' lk']. exact G.
 Qed.
+
+(* ================= non-interference of the matcher ================= *)
+
+(* ---------- identity of an order survives everything the matcher does to it ---------- *)
+Definition ns (o : sorder) : Z * Z := (so_name o, so_strat o).
+
+Lemma ns_set_frags tb o fr : ns (set_frags tb o fr) = ns o.
+Proof. unfold set_frags. destruct (wap tb fr). reflexivity. Qed.
+Lemma ns_add_frag tb o pt p s : ns (add_frag tb o pt p s) = ns o.
+Proof. apply ns_set_frags. Qed.
+Lemma ns_calc_traded tb pt ts o : ns (fst (calc_traded tb pt ts o)) = ns o.
+Proof.
+  unfold calc_traded. destruct (so_piq2 o <? ts); [|reflexivity]. cbv zeta. cbn [fst].
+  destruct (rnd tb (zmin (2 * remaining o) (ts - so_piq2 o)) 2 =? 0); [reflexivity|]. unfold ns. cbn [upd_sim so_name so_strat]. apply (ns_add_frag tb o pt (so_price o)).
+Qed.
+Lemma ns_process_traded tb pt : forall tr o, ns (fst (process_traded tb pt tr o)) = ns o.
+Proof.
+  induction tr as [|[tp ts] r IH]; intros o; cbn [process_traded]; [reflexivity|].
+  destruct (match so_side o with Back => so_price o <=? tp | Lay => tp <=? so_price o end).
+  - destruct (calc_traded tb pt ts o) as [o1 m] eqn:E. specialize (IH o1). destruct (process_traded tb pt r o1) as [o2 r']. cbn [fst] in *.
+    rewrite IH. pose proof (ns_calc_traded tb pt ts o) as H. rewrite E in H. exact H.
+  - specialize (IH o). destruct (process_traded tb pt r o) as [o2 r']. exact IH.
+Qed.
+Lemma ns_process_sp tb c pt r o : ns (fst (process_sp tb c pt r o)) = ns o.
+Proof.
+  unfold process_sp. destruct (r_sp r) as [sp|]; [|reflexivity]. destruct (sp =? 0); [reflexivity|]. cbv zeta.
+  set (o' := upd_sim o (so_mver o) (so_piq2 o) true). assert (H0 : ns o' = ns o) by reflexivity.
+  destruct (so_type o'); destruct (so_side o'); cbn [fst];
+    repeat match goal with |- context [if ?c then _ else _] => destruct c end; cbn [fst]; rewrite ?ns_add_frag; try exact H0; reflexivity.
+Qed.
+Lemma ns_on_book tb c b r tr o : ns (fst (fst (on_book tb c b r tr o))) = ns o.
+Proof.
+  unfold on_book. cbv zeta.
+  destruct (negb (so_bsp o) && b_bsp_rec b) eqn:E1.
+  - destruct (take_sp o).
+    + pose proof (ns_process_sp tb c (b_pt b) r o) as H. destruct (process_sp tb c (b_pt b) r o) as [o1 d]. exact H.
+    + set (o' := upd_sim o (so_mver o) (so_piq2 o) true). assert (H0 : ns o' = ns o) by reflexivity.
+      destruct (so_type o'); [|exact H0|exact H0].
+      set (o1 := if negb (opt_eqb Z.eqb (so_mver o') (Some (b_version b))) then upd_sim o' (Some (b_version b)) (so_piq2 o') (so_bsp o') else o').
+      assert (H1 : ns o1 = ns o) by (unfold o1; destruct (negb (opt_eqb Z.eqb (so_mver o') (Some (b_version b)))); exact H0).
+      destruct (negb (opt_eqb Z.eqb (so_mver o') (Some (b_version b))) && mstatus_eqb (b_status b) MSuspended && persist_eqb (so_persist o1) PLapse); [exact H1|].
+      destruct tr as [|t0 tr0]; [exact H1|]. pose proof (ns_process_traded tb (b_pt b) (t0 :: tr0) o1) as H.
+      destruct (process_traded tb (b_pt b) (t0 :: tr0) o1) as [o2 tr']. cbn [fst] in *. rewrite H. exact H1.
+  - destruct (so_type o); [|reflexivity|reflexivity].
+    set (o1 := if negb (opt_eqb Z.eqb (so_mver o) (Some (b_version b))) then upd_sim o (Some (b_version b)) (so_piq2 o) (so_bsp o) else o).
+    assert (H1 : ns o1 = ns o) by (unfold o1; destruct (negb (opt_eqb Z.eqb (so_mver o) (Some (b_version b)))); reflexivity).
+    destruct (negb (opt_eqb Z.eqb (so_mver o) (Some (b_version b))) && mstatus_eqb (b_status b) MSuspended && persist_eqb (so_persist o1) PLapse); [exact H1|].
+    destruct tr as [|t0 tr0]; [exact H1|]. pose proof (ns_process_traded tb (b_pt b) (t0 :: tr0) o1) as H.
+    destruct (process_traded tb (b_pt b) (t0 :: tr0) o1) as [o2 tr']. cbn [fst] in *. rewrite H. exact H1.
+Qed.
+
+(* ---------- projection on one strategy ---------- *)
+Definition proj_strat (st : Z) (l : list sorder) : list sorder := filter (fun o => so_strat o =? st) l.
+
+Lemma get_order_in n os o : get_order n os = Some o -> In o os /\ so_name o = n.
+Proof. unfold get_order. intros H. apply find_some in H. destruct H as [H1 H2]. split; [exact H1|lia]. Qed.
+Lemma get_order_absent n os : ~ In n (map so_name os) -> get_order n os = None.
+Proof.
+  intros H. unfold get_order. destruct (find (fun o => so_name o =? n) os) as [o|] eqn:E; [|reflexivity]. exfalso. apply find_some in E. destruct E as [E1 E2].
+  apply H. apply in_map_iff. exists o. split; [lia|exact E1].
+Qed.
+Lemma upd_order_absent n f os : ~ In n (map so_name os) -> upd_order n f os = os.
+Proof.
+  induction os as [|x r IH]; intros H; cbn [upd_order]; [reflexivity|]. cbn [map In] in H.
+  destruct (so_name x =? n) eqn:E; [exfalso; apply H; left; lia|]. rewrite IH by tauto. reflexivity.
+Qed.
+Lemma names_P st os n : In n (map so_name (proj_strat st os)) -> In n (map so_name os).
+Proof. intros H. apply in_map_iff in H. destruct H as [o [E Ho]]. apply filter_In in Ho. apply in_map_iff. exists o. tauto. Qed.
+Lemma nodup_P st os : NoDup (map so_name os) -> NoDup (map so_name (proj_strat st os)).
+Proof.
+  induction os as [|x r IH]; intros H; cbn [proj_strat filter map]; [constructor|]. cbn [map] in H. inversion H as [|? ? Hx Hr]; subst.
+  destruct (so_strat x =? st); [|apply IH; exact Hr]. cbn [map]. constructor; [|apply IH; exact Hr]. intro Hin. apply Hx. eapply names_P. exact Hin.
+Qed.
+
+Lemma get_order_P st n os : NoDup (map so_name os) ->
+  get_order n (proj_strat st os) = match get_order n os with Some o => if so_strat o =? st then Some o else None | None => None end.
+Proof.
+  induction os as [|x r IH]; intros Hnd; [reflexivity|]. cbn [map] in Hnd. inversion Hnd as [|? ? Hx Hr]; subst.
+  unfold get_order in *. cbn [proj_strat filter find]. destruct (so_name x =? n) eqn:En.
+  - destruct (so_strat x =? st) eqn:Es; cbn [find]; [rewrite En; reflexivity|].
+    (* x is the one named n but belongs to another strategy: nobody else is named n *)
+    change (find (fun o => so_name o =? n) (proj_strat st r) = None). apply get_order_absent. intro Hin. apply Hx. replace (so_name x) with n by lia. eapply names_P. exact Hin.
+  - destruct (so_strat x =? st); cbn [find]; rewrite ?En; apply IH; exact Hr.
+Qed.
+
+Lemma upd_order_P st n f os : NoDup (map so_name os) -> (forall o, so_strat (f o) = so_strat o) ->
+  proj_strat st (upd_order n f os) = upd_order n f (proj_strat st os).
+Proof.
+  intros Hnd Hf. induction os as [|x r IH]; [reflexivity|]. cbn [map] in Hnd. inversion Hnd as [|? ? Hx Hr]; subst. cbn [upd_order].
+  destruct (so_name x =? n) eqn:En.
+  - cbn [proj_strat filter]. rewrite Hf. destruct (so_strat x =? st) eqn:Es; cbn [upd_order]; [rewrite En; reflexivity|].
+    symmetry. apply upd_order_absent. intro Hin. apply Hx. replace (so_name x) with n by lia. eapply names_P. exact Hin.
+  - cbn [proj_strat filter]. destruct (so_strat x =? st); cbn [upd_order]; rewrite ?En; [f_equal|]; apply IH; exact Hr.
+Qed.
+
+Lemma map_ns_upd n o2 os o : get_order n os = Some o -> ns o2 = ns o -> map ns (upd_order n (fun _ => o2) os) = map ns os.
+Proof.
+  unfold get_order. induction os as [|x r IH]; intros Hg Hns; [reflexivity|]. cbn [find] in Hg. cbn [upd_order]. destruct (so_name x =? n).
+  - inversion Hg; subst. cbn [map]. rewrite Hns. reflexivity.
+  - cbn [map]. f_equal. apply IH; assumption.
+Qed.
+Lemma names_of_ns os : map so_name os = map fst (map ns os).
+Proof. rewrite map_map. reflexivity. Qed.
+
+Lemma upd_order_P_const st n o2 os o : NoDup (map so_name os) -> get_order n os = Some o -> so_strat o2 = so_strat o ->
+  proj_strat st (upd_order n (fun _ => o2) os) = upd_order n (fun _ => o2) (proj_strat st os).
+Proof.
+  intros Hnd Hg Hs. induction os as [|x r IH]; [reflexivity|]. cbn [map] in Hnd. inversion Hnd as [|? ? Hx Hr]; subst. cbn [upd_order].
+  unfold get_order in Hg. cbn [find] in Hg. destruct (so_name x =? n) eqn:En.
+  - inversion Hg; subst x. cbn [proj_strat filter]. rewrite Hs. destruct (so_strat o =? st) eqn:Es; cbn [upd_order]; [rewrite En; reflexivity|].
+    symmetry. apply upd_order_absent. intro Hin. apply Hx. replace (so_name o) with n by lia. eapply names_P. exact Hin.
+  - cbn [proj_strat filter]. destruct (so_strat x =? st); cbn [upd_order]; rewrite ?En; [f_equal|]; apply IH; assumption.
+Qed.
+
+Section Matching.
+  Variables (tb : tiebreak) (cf : config) (b : book).
+
+  Definition mstep (st : list sorder * list (Z * traded)) (o0 : sorder) : list sorder * list (Z * traded) :=
+    let '(os, lk) := st in
+    match get_order (so_name o0) os with
+    | None => st
+    | Some o =>
+      let tr := match find (fun e => fst e =? so_sel o) lk with Some e => snd e | None => [] end in
+      match find_runner b (so_sel o) with
+      | None => st
+      | Some r =>
+          let '(o1, tr', done) := on_book tb (client_of cf (so_strat o)) b r tr o in
+          let o2 := if done then exec_complete (cf_complete cf) (b_pt b) o1 else o1 in
+          (upd_order (so_name o) (fun _ => o2) os,
+           map (fun e => if fst e =? so_sel o then (fst e, tr') else e) lk)
+      end
+    end.
+
+  Lemma match_orders_fold ans live orders :
+    match_orders tb cf b ans live orders = fst (fold_left mstep (sort_orders live) (orders, map (fun a => (an_sel a, an_traded a)) ans)).
+  Proof. unfold match_orders. cbv zeta. fold mstep. destruct (fold_left mstep (sort_orders live) _). reflexivity. Qed.
+
+  (* what one step does to the identities: nothing *)
+  Lemma mstep_ns os lk o0 : map ns (fst (mstep (os, lk) o0)) = map ns os.
+  Proof.
+    unfold mstep. destruct (get_order (so_name o0) os) as [o|] eqn:Eg; [|reflexivity]. cbv zeta.
+    destruct (find_runner b (so_sel o)) as [r|]; [|reflexivity].
+    pose proof (ns_on_book tb (client_of cf (so_strat o)) b r (match find (fun e => fst e =? so_sel o) lk with Some e => snd e | None => [] end) o) as Hns.
+    destruct (on_book tb (client_of cf (so_strat o)) b r _ o) as [[o1 tr'] done]. cbn [fst] in *.
+    destruct (get_order_in _ _ _ Eg) as [_ Hn].
+    eapply map_ns_upd; [rewrite Hn; exact Eg|]. destruct done; [|exact Hns]. unfold exec_complete, set_status, ns. cbn [upd_ord so_name so_strat]. exact Hns.
+  Qed.
+
+  Definition owner_is (st : Z) (os : list sorder) (n : Z) : Prop := forall p, In p (map ns os) -> fst p = n -> snd p = st.
+
+  (* the step of an order owned by st commutes with the projection on st *)
+  Lemma mstep_P st os lk o0 : NoDup (map so_name os) -> owner_is st os (so_name o0) ->
+    mstep (proj_strat st os, lk) o0 = (proj_strat st (fst (mstep (os, lk) o0)), snd (mstep (os, lk) o0)).
+  Proof.
+    intros Hnd Hown. unfold mstep. rewrite get_order_P by exact Hnd.
+    destruct (get_order (so_name o0) os) as [o|] eqn:Eg; [|reflexivity].
+    destruct (get_order_in _ _ _ Eg) as [Hin Hn].
+    assert (Hs : so_strat o = st) by (apply (Hown (ns o)); [apply in_map; exact Hin|exact Hn]).
+    replace (so_strat o =? st) with true by lia. cbv zeta.
+    destruct (find_runner b (so_sel o)) as [r|]; [|reflexivity].
+    pose proof (ns_on_book tb (client_of cf (so_strat o)) b r (match find (fun e => fst e =? so_sel o) lk with Some e => snd e | None => [] end) o) as Hns.
+    destruct (on_book tb (client_of cf (so_strat o)) b r _ o) as [[o1 tr'] done]. cbn [fst snd] in *.
+    rewrite (upd_order_P_const st (so_name o) _ os o); [reflexivity|exact Hnd|rewrite Hn; exact Eg|].
+    assert (Hs1 : so_strat o1 = so_strat o) by (apply (f_equal snd) in Hns; exact Hns).
+    destruct done; [|exact Hs1]. exact Hs1.
+  Qed.
+  (* the step of an order owned by somebody else leaves the projection on st alone *)
+  Lemma mstep_other st st' os lk o0 : NoDup (map so_name os) -> owner_is st' os (so_name o0) -> st' <> st -> proj_strat st (fst (mstep (os, lk) o0)) = proj_strat st os.
+  Proof.
+    intros Hnd Hown Hne. unfold mstep.
+    destruct (get_order (so_name o0) os) as [o|] eqn:Eg; [|reflexivity].
+    destruct (get_order_in _ _ _ Eg) as [Hin Hn].
+    assert (Hs : so_strat o = st') by (apply (Hown (ns o)); [apply in_map; exact Hin|exact Hn]).
+    cbv zeta. destruct (find_runner b (so_sel o)) as [r|]; [|reflexivity].
+    pose proof (ns_on_book tb (client_of cf (so_strat o)) b r (match find (fun e => fst e =? so_sel o) lk with Some e => snd e | None => [] end) o) as Hns.
+    destruct (on_book tb (client_of cf (so_strat o)) b r _ o) as [[o1 tr'] done]. cbn [fst snd] in *.
+    assert (Hs1 : so_strat o1 = so_strat o) by (apply (f_equal snd) in Hns; exact Hns).
+    rewrite (upd_order_P_const st (so_name o) _ os o); [|exact Hnd|rewrite Hn; exact Eg|destruct done; exact Hs1].
+    apply upd_order_absent. intro Hin'. apply in_map_iff in Hin'. destruct Hin' as [x [Ex Hx]]. apply filter_In in Hx. destruct Hx as [Hx1 Hx2].
+    (* x is named like o and in os: it is o (unique names), but its strategy is st *)
+    assert (x = o).
+    { clear - Hnd Hin Hx1 Ex. induction os as [|y r IH]; [destruct Hin|]. cbn [map] in Hnd. inversion Hnd as [|? ? Hy Hr]; subst.
+      destruct Hin as [->|Hin]; destruct Hx1 as [->|Hx1]; try reflexivity.
+      - exfalso. apply Hy. rewrite <- Ex. apply in_map. exact Hx1.
+      - exfalso. apply Hy. rewrite Ex. apply in_map. exact Hin.
+      - apply IH; assumption. }
+    subst x. lia.
+  Qed.
+End Matching.
+
+Section Matching2.
+  Variables (tb : tiebreak) (cf : config) (b : book).
+  Notation mstep := (mstep tb cf b).
+
+  Lemma nodup_of_ns os os' : map ns os' = map ns os -> NoDup (map so_name os) -> NoDup (map so_name os').
+  Proof. intros H Hn. rewrite names_of_ns, H, <- names_of_ns. exact Hn. Qed.
+  Lemma owner_of_ns st os os' n : map ns os' = map ns os -> owner_is st os n -> owner_is st os' n.
+  Proof. intros H Ho p Hp. rewrite H in Hp. apply Ho. exact Hp. Qed.
+
+  Lemma fold_ns l : forall os lk, map ns (fst (fold_left mstep l (os, lk))) = map ns os.
+  Proof.
+    induction l as [|x r IH]; intros os lk; cbn [fold_left]; [reflexivity|].
+    destruct (mstep (os, lk) x) as [os1 lk1] eqn:E. rewrite IH. pose proof (mstep_ns tb cf b os lk x) as H. rewrite E in H. exact H.
+  Qed.
+
+  Lemma fold_P st l : forall os lk, NoDup (map so_name os) -> (forall o0, In o0 l -> owner_is st os (so_name o0)) ->
+    fold_left mstep l (proj_strat st os, lk) = (proj_strat st (fst (fold_left mstep l (os, lk))), snd (fold_left mstep l (os, lk))).
+  Proof.
+    induction l as [|x r IH]; intros os lk Hnd Hown; cbn [fold_left]; [reflexivity|].
+    rewrite (mstep_P tb cf b st os lk x Hnd (Hown x (or_introl eq_refl))).
+    pose proof (mstep_ns tb cf b os lk x) as Hns.
+    destruct (mstep (os, lk) x) as [os1 lk1]. cbn [fst snd] in *.
+    apply IH; [eapply nodup_of_ns; eassumption|]. intros o0 Ho0. eapply owner_of_ns; [exact Hns|]. apply Hown. right. exact Ho0.
+  Qed.
+  Lemma fold_other st st' l : st' <> st -> forall os lk, NoDup (map so_name os) -> (forall o0, In o0 l -> owner_is st' os (so_name o0)) ->
+    proj_strat st (fst (fold_left mstep l (os, lk))) = proj_strat st os.
+  Proof.
+    intros Hne. induction l as [|x r IH]; intros os lk Hnd Hown; cbn [fold_left]; [reflexivity|].
+    pose proof (mstep_other tb cf b st st' os lk x Hnd (Hown x (or_introl eq_refl)) Hne) as Hp.
+    pose proof (mstep_ns tb cf b os lk x) as Hns.
+    destruct (mstep (os, lk) x) as [os1 lk1]. cbn [fst] in *.
+    rewrite IH; [exact Hp|eapply nodup_of_ns; eassumption|]. intros o0 Ho0. eapply owner_of_ns; [exact Hns|]. apply Hown. right. exact Ho0.
+  Qed.
+
+  (* the sorted list holds the same orders as the list it sorts *)
+  Lemma sort_by_in key (l : list sorder) x : In x (sort_by key l) -> In x l.
+  Proof.
+    unfold sort_by. assert (match_strategy : forall l0 acc, In x (fold_left (fun acc o => insert_by key o acc) l0 acc) -> In x l0 \/ In x acc).
+    { induction l0 as [|y l0 IH]; intros acc H; cbn [fold_left] in H; [right; exact H|].
+      destruct (IH _ H) as [H1|H1]; [left; right; exact H1|].
+      assert (I : forall acc0, In x (insert_by key y acc0) -> x = y \/ In x acc0).
+      { induction acc0 as [|a acc0 IHa]; cbn [insert_by In]; [intros [<-|[]]; left; reflexivity|].
+        destruct (key y <? key a); cbn [In]; [intros [<-|H2]; [left; reflexivity|right; exact H2]|].
+        intros [<-|H2]; [right; left; reflexivity|]. destruct (IHa H2) as [->|H3]; [left; reflexivity|right; right; exact H3]. }
+      destruct (I _ H1) as [->|H2]; [left; left; reflexivity|right; exact H2]. }
+    intros H. destruct (match_strategy l [] H) as [H1|[]]. exact H1.
+  Qed.
+  Lemma sort_orders_in live x : In x (sort_orders live) -> In x live.
+  Proof.
+    unfold sort_orders. rewrite !in_app_iff. intros [H|[H|H]]; [apply sort_by_in in H|apply sort_by_in in H|]; apply filter_In in H; tauto.
+  Qed.
+
+  Lemma owner_of_member st os x : NoDup (map so_name os) -> In x os -> so_strat x = st -> owner_is st os (so_name x).
+  Proof.
+    intros Hnd Hin Hs p Hp Hfst. apply in_map_iff in Hp. destruct Hp as [y [<- Hy]]. cbn in Hfst.
+    assert (y = x).
+    { clear - Hnd Hin Hy Hfst. induction os as [|z r IH]; [destruct Hin|]. cbn [map] in Hnd. inversion Hnd as [|? ? Hz Hr]; subst.
+      destruct Hin as [->|Hin]; destruct Hy as [->|Hy]; try reflexivity.
+      - exfalso. apply Hz. rewrite <- Hfst. apply in_map. exact Hy.
+      - exfalso. apply Hz. rewrite Hfst. apply in_map. exact Hin.
+      - apply IH; assumption. }
+    subst y. exact Hs.
+  Qed.
+
+  (* matching the live orders of strategy st: its own orders end up exactly as if the other strategies' orders were not there ... *)
+  Theorem match_orders_P st ans live os : NoDup (map so_name os) -> (forall x, In x live -> In x os /\ so_strat x = st) ->
+    proj_strat st (match_orders tb cf b ans live os) = match_orders tb cf b ans live (proj_strat st os).
+  Proof.
+    intros Hnd Hlive. rewrite !match_orders_fold. rewrite (fold_P st); [reflexivity|exact Hnd|].
+    intros o0 Ho0. apply sort_orders_in in Ho0. destruct (Hlive o0 Ho0) as [Hin Hs]. apply owner_of_member; assumption.
+  Qed.
+  (* ... and matching another strategy's live orders does not touch them *)
+  Theorem match_orders_other st st' ans live os : st' <> st -> NoDup (map so_name os) -> (forall x, In x live -> In x os /\ so_strat x = st') ->
+    proj_strat st (match_orders tb cf b ans live os) = proj_strat st os.
+  Proof.
+    intros Hne Hnd Hlive. rewrite match_orders_fold. apply (fold_other st st'); [exact Hne|exact Hnd|].
+    intros o0 Ho0. apply sort_orders_in in Ho0. destruct (Hlive o0 Ho0) as [Hin Hs]. apply owner_of_member; assumption.
+  Qed.
+  Lemma match_orders_ns ans live os : map ns (match_orders tb cf b ans live os) = map ns os.
+  Proof. rewrite match_orders_fold. apply fold_ns. Qed.
+End Matching2.
+
+Section Isolation.
+  Variables (tb : tiebreak) (cf : config) (b : book) (ans : list analytics).
+
+  Definition match_strategy (st : Z) (os : list sorder) : list sorder :=
+    let live := filter (fun o => (so_strat o =? st) && status_in (so_status o) (cf_mw_live cf)) os in
+    match live with [] => os | _ => match_orders tb cf b ans live os end.
+
+  Lemma G_ns st os : map ns (match_strategy st os) = map ns os.
+  Proof. unfold match_strategy. cbv zeta. destruct (filter _ os); [reflexivity|apply match_orders_ns]. Qed.
+  Lemma live_members st os x : In x (filter (fun o => (so_strat o =? st) && status_in (so_status o) (cf_mw_live cf)) os) -> In x os /\ so_strat x = st.
+  Proof. intros H. apply filter_In in H. destruct H as [H1 H2]. apply andb_true_iff in H2. split; [exact H1|lia]. Qed.
+  Lemma G_other st st' os : st' <> st -> NoDup (map so_name os) -> proj_strat st (match_strategy st' os) = proj_strat st os.
+  Proof.
+    intros Hne Hnd. unfold match_strategy. cbv zeta. destruct (filter _ os) as [|y l] eqn:E; [reflexivity|].
+    apply (match_orders_other tb cf b st st'); [exact Hne|exact Hnd|]. intros x Hx. rewrite <- E in Hx. apply live_members. exact Hx.
+  Qed.
+  Lemma filter_filter_sub {A} (f g : A -> bool) l : (forall x, f x = true -> g x = true) -> filter f (filter g l) = filter f l.
+  Proof.
+    intros H. induction l as [|x r IH]; [reflexivity|]. cbn [filter]. destruct (g x) eqn:Eg; cbn [filter]; [rewrite IH; reflexivity|].
+    destruct (f x) eqn:Ef; [rewrite (H x Ef) in Eg; discriminate|exact IH].
+  Qed.
+  Lemma G_P st os : NoDup (map so_name os) -> proj_strat st (match_strategy st os) = match_strategy st (proj_strat st os).
+  Proof.
+    intros Hnd. unfold match_strategy. cbv zeta.
+    assert (El : filter (fun o => (so_strat o =? st) && status_in (so_status o) (cf_mw_live cf)) (proj_strat st os)
+               = filter (fun o => (so_strat o =? st) && status_in (so_status o) (cf_mw_live cf)) os).
+    { unfold proj_strat. apply filter_filter_sub. intros x Hx. apply andb_true_iff in Hx. tauto. }
+    rewrite El. destruct (filter _ os) as [|y l] eqn:E; [reflexivity|].
+    apply (match_orders_P tb cf b st); [exact Hnd|]. intros x Hx. rewrite <- E in Hx. apply live_members. exact Hx.
+  Qed.
+
+  Lemma fold_G st : forall sts os, NoDup (map so_name os) -> NoDup sts ->
+    proj_strat st (fold_left (fun os s => match_strategy s os) sts os) = if existsb (Z.eqb st) sts then match_strategy st (proj_strat st os) else proj_strat st os.
+  Proof.
+    induction sts as [|s r IH]; intros os Hnd Hs; cbn [fold_left existsb]; [reflexivity|].
+    inversion Hs as [|? ? Hsr Hr]; subst.
+    assert (Hnd' : NoDup (map so_name (match_strategy s os))) by (eapply nodup_of_ns; [apply G_ns|exact Hnd]).
+    rewrite IH by assumption. destruct (st =? s) eqn:E.
+    - assert (s = st) by lia. subst s. cbn [orb].
+      replace (existsb (Z.eqb st) r) with false; [apply G_P; exact Hnd|].
+      symmetry. apply not_true_is_false. intro H. apply existsb_exists in H. destruct H as [x [Hx Ex]]. apply Hsr. replace st with x by lia. exact Hx.
+    - cbn [orb]. rewrite (G_other st s) by (try lia; exact Hnd). reflexivity.
+  Qed.
+
+  (* strategies in first-appearance order *)
+  Lemma sio_spec : forall os seen s, In s (strategies_in_order os seen) <-> (exists o, In o os /\ so_strat o = s) /\ ~ In s seen.
+  Proof.
+    induction os as [|o r IH]; intros seen s; cbn [strategies_in_order]; [split; [intros []|intros [[x [[] _]] _]]|].
+    destruct (existsb (Z.eqb (so_strat o)) seen) eqn:E.
+    - rewrite IH. split.
+      + intros [[x [Hx Es]] Hn]. split; [exists x; split; [right; exact Hx|exact Es]|exact Hn].
+      + intros [[x [[->|Hx] Es]] Hn]; [|split; [exists x; tauto|exact Hn]].
+        exfalso. apply existsb_exists in E. destruct E as [y [Hy Ey]]. apply Hn. replace s with y by lia. exact Hy.
+    - cbn [In]. rewrite IH. split.
+      + intros [<-|[[x [Hx Es]] Hn]].
+        * split; [exists o; split; [left; reflexivity|reflexivity]|]. intro H. assert (existsb (Z.eqb (so_strat o)) seen = true) by (apply existsb_exists; exists (so_strat o); split; [exact H|lia]). congruence.
+        * split; [exists x; split; [right; exact Hx|exact Es]|]. intro H. apply Hn. right. exact H.
+      + intros [[x [[->|Hx] Es]] Hn]; [left; exact Es|].
+        destruct (Z.eq_dec (so_strat o) s) as [E2|E2]; [left; exact E2|]. right. split; [exists x; tauto|]. intros [H|H]; [congruence|tauto].
+  Qed.
+  Lemma sio_nodup : forall os seen, NoDup (strategies_in_order os seen).
+  Proof.
+    induction os as [|o r IH]; intros seen; cbn [strategies_in_order]; [constructor|].
+    destruct (existsb (Z.eqb (so_strat o)) seen); [apply IH|]. constructor; [|apply IH]. intro H. apply sio_spec in H. destruct H as [_ H]. apply H. left. reflexivity.
+  Qed.
+  Lemma sio_single st : forall os seen, (forall o, In o os -> so_strat o = st) -> ~ In st seen ->
+    strategies_in_order os seen = match os with [] => [] | _ => [st] end.
+  Proof.
+    induction os as [|o r IH]; intros seen Hall Hn; [reflexivity|]. cbn [strategies_in_order]. rewrite (Hall o) by (left; reflexivity).
+    replace (existsb (Z.eqb st) seen) with false.
+    - f_equal. assert (Hr : forall seen', In st seen' -> strategies_in_order r seen' = []).
+      { clear - Hall. induction r as [|x r IH]; intros seen' Hs; [reflexivity|]. cbn [strategies_in_order]. rewrite (Hall x) by (right; left; reflexivity).
+        replace (existsb (Z.eqb st) seen') with true; [apply IH; [intros y [->|Hy]; apply Hall; [left; reflexivity|right; right; exact Hy]|exact Hs]|].
+        symmetry. apply existsb_exists. exists st. split; [exact Hs|lia]. }
+      apply Hr. left. reflexivity.
+    - symmetry. apply not_true_is_false. intro H. apply existsb_exists in H. destruct H as [x [Hx Ex]]. apply Hn. replace st with x by lia. exact Hx.
+  Qed.
+
+  (* NON-INTERFERENCE OF THE MATCHER under strategy isolation: what the simulated matching of one market update does to the orders of a
+     strategy is exactly what it would do if the other strategies' orders were not in the market at all *)
+  Theorem isolation_matching st orders : cf_isolation cf = true -> NoDup (map so_name orders) ->
+    proj_strat st (process_sim_orders tb cf b ans orders) = process_sim_orders tb cf b ans (proj_strat st orders).
+  Proof.
+    intros Hiso Hnd. unfold process_sim_orders. rewrite Hiso. fold match_strategy.
+    change (fun os st0 => let live := filter (fun o => (so_strat o =? st0) && status_in (so_status o) (cf_mw_live cf)) os in match live with [] => os | _ :: _ => match_orders tb cf b ans live os end)
+      with (fun os s => match_strategy s os).
+    rewrite (fold_G st) by (try exact Hnd; apply sio_nodup).
+    rewrite (sio_single st (proj_strat st orders) []); [|intros o Ho; apply filter_In in Ho; destruct Ho as [_ Ho]; lia|intros []].
+    destruct (proj_strat st orders) as [|y l] eqn:Ep.
+    - cbn [fold_left]. replace (existsb (Z.eqb st) (strategies_in_order orders [])) with false; [reflexivity|].
+      symmetry. apply not_true_is_false. intro H. apply existsb_exists in H. destruct H as [x [Hx Ex]]. apply sio_spec in Hx. destruct Hx as [[o [Ho Es]] _].
+      assert (In o (proj_strat st orders)) by (apply filter_In; split; [exact Ho|lia]). rewrite Ep in H. destruct H.
+    - cbn [fold_left]. replace (existsb (Z.eqb st) (strategies_in_order orders [])) with true; [reflexivity|].
+      symmetry. apply existsb_exists. exists st. split; [|lia]. apply sio_spec. split; [|intros []].
+      assert (Hy : In y (proj_strat st orders)) by (rewrite Ep; left; reflexivity). apply filter_In in Hy. exists y. split; [tauto|lia].
+  Qed.
+End Isolation.
